@@ -237,18 +237,19 @@ class DecoherenceNoise(Noise):
             systematic_noise = Pulse(None, None, label="system")
         N = len(dims)
         # time-independent
-        if (self.coeff is None) and (self.tlist is None):
-            self.coeff = True
+        coeff = self.coeff
+        if (coeff is None) and (self.tlist is None):
+            coeff = True
 
         for c_op in self.c_ops:
             if self.all_qubits:
                 for targets in range(N):
                     systematic_noise.add_lindblad_noise(
-                        c_op, targets, self.tlist, self.coeff
+                        c_op, targets, self.tlist, coeff
                     )
             else:
                 systematic_noise.add_lindblad_noise(
-                    c_op, self.targets, self.tlist, self.coeff
+                    c_op, self.targets, self.tlist, coeff
                 )
         return pulses, systematic_noise
 
@@ -339,12 +340,14 @@ class RelaxationNoise(Noise):
             systematic_noise = Pulse(None, None, label="system")
         N = len(dims)
 
-        self.t1 = self._T_to_list(self.t1, N)
-        self.t2 = self._T_to_list(self.t2, N)
-        if len(self.t1) != N or len(self.t2) != N:
+        # Do not overwrite self.t1 / self.t2: the noise object can be used
+        # again for a system with a different number of qubits.
+        t1_list = self._T_to_list(self.t1, N)
+        t2_list = self._T_to_list(self.t2, N)
+        if len(t1_list) != N or len(t2_list) != N:
             raise ValueError(
                 "Length of t1 or t2 does not match N, "
-                "len(t1)={}, len(t2)={}".format(len(self.t1), len(self.t2))
+                "len(t1)={}, len(t2)={}".format(len(t1_list), len(t2_list))
             )
 
         if self.targets is None:
@@ -352,8 +355,8 @@ class RelaxationNoise(Noise):
         else:
             targets = self.targets
         for qu_ind in targets:
-            t1 = self.t1[qu_ind]
-            t2 = self.t2[qu_ind]
+            t1 = t1_list[qu_ind]
+            t2 = t2_list[qu_ind]
             if t1 is not None:
                 op = 1 / np.sqrt(t1) * destroy(dims[qu_ind])
                 systematic_noise.add_lindblad_noise(op, qu_ind, coeff=True)
